@@ -22,7 +22,7 @@ expected protocol sequence of that call (all of it when the call succeeds), ever
 before a failing one succeeded, a failing effect is the last one, and its error is returned
 (`CallShape`). -/
 theorem call_protocol (env : Env) (op : Op) (s : State) :
-    EmitsAt (call env op) (expectedSubs op s.dev) s :=
+    EmitsAt (call env op) (expectedSubs env op s.dev) s :=
   emitsAt_call env op s
 
 private theorem eq_map_ok_of_allOk {seg : List Effect} {l : List Sub}
@@ -109,14 +109,34 @@ theorem stop_order (env : Env) (s : State) :
     exact eq_map_ok_of_allOk (hok () h) hall
 
 /-- **stop_order (close)**.  `close` performs the stop protocol first (when a loop runs),
-and closes the control handle and then the stream handle only after all of it succeeded. -/
+and closes the two handles (in the order `env.closeCtrlFirst` says — the property does not
+order these two independent operations) only after all of it succeeded, the second only after
+the first succeeded. -/
 theorem close_order (env : Env) (s : State) :
     ∃ seg, (step env .close s).2.trace = s.trace ++ seg ∧
       CallShape seg (step env .close s).1 ∧
-      seg.map (·.sub) <+: (if s.dev.loopFlag then stopSeq else []) ++ [.ctrlClose, .strmClose] ∧
+      seg.map (·.sub) <+: (if s.dev.loopFlag then stopSeq else []) ++
+        pairSubs env.closeCtrlFirst .ctrlClose .strmClose ∧
       ((step env .close s).1 = .ok () →
-        seg = ((if s.dev.loopFlag then stopSeq else []) ++ [Sub.ctrlClose, Sub.strmClose]).map (⟨·, .ok⟩)) := by
+        seg = ((if s.dev.loopFlag then stopSeq else []) ++
+          pairSubs env.closeCtrlFirst .ctrlClose .strmClose).map (⟨·, .ok⟩)) := by
   obtain ⟨seg, ht, _, hsh, hp, hok⟩ := emitsAt_call env .close s
+  refine ⟨seg, ht, hsh, hp, fun h => ?_⟩
+  have hall : AllOk seg := by
+    have := hsh
+    simp only [step] at h
+    rw [h] at this
+    exact this
+  exact eq_map_ok_of_allOk (hok () h) hall
+
+/-- **open_order**: `open` opens the two handles in the order `env.openCtrlFirst` says, the
+second only after the first succeeded. -/
+theorem open_order (env : Env) (s : State) :
+    ∃ seg, (step env .open s).2.trace = s.trace ++ seg ∧ CallShape seg (step env .open s).1 ∧
+      seg.map (·.sub) <+: pairSubs env.openCtrlFirst .ctrlOpen .strmOpen ∧
+      ((step env .open s).1 = .ok () →
+        seg = (pairSubs env.openCtrlFirst .ctrlOpen .strmOpen).map (⟨·, .ok⟩)) := by
+  obtain ⟨seg, ht, _, hsh, hp, hok⟩ := emitsAt_call env .open s
   refine ⟨seg, ht, hsh, hp, fun h => ?_⟩
   have hall : AllOk seg := by
     have := hsh
@@ -445,6 +465,20 @@ conclusions are the expected concrete traces) -/
 def envOk : Env := { plan := fun _ => false, xml := Xml.full, stopFailKills := false }
 /-- a fault at sub-operation index `k` only -/
 def envFault (k : Nat) : Env := { plan := fun i => i == k, xml := Xml.full, stopFailKills := false }
+
+/-- the implementation may open/close the stream handle first: every theorem covers it -/
+def envSwapped : Env :=
+  { plan := fun _ => false, xml := Xml.full, stopFailKills := false,
+    openCtrlFirst := false, closeCtrlFirst := false }
+
+example : (runOps envSwapped [.open, .load, .start 1, .close] State.init).trace =
+    [⟨.strmOpen, .ok⟩, ⟨.ctrlOpen, .ok⟩, ⟨.genapi, .ok⟩,
+     ⟨.enable, .ok⟩, ⟨.lockSet 1, .ok⟩, ⟨.acqStart, .ok⟩, ⟨.loopStart, .ok⟩,
+     ⟨.loopStop, .ok⟩, ⟨.acqStop, .ok⟩, ⟨.lockSet 0, .ok⟩, ⟨.disable, .ok⟩,
+     ⟨.strmClose, .ok⟩, ⟨.ctrlClose, .ok⟩] := by decide
+
+example : Clean (runOps envSwapped [.open, .load, .start 1, .close] State.init).dev := by
+  unfold Clean; decide
 
 -- open, load, start(3): the start performs exactly the four protocol steps, in order
 example : (runOps envOk [.open, .load, .start 3] State.init).trace =
